@@ -52,12 +52,15 @@ type c15Case struct {
 	Out             int // 0 default path, 1 -out in another directory, 2 -out through a symbolic link to a directory followed by ".." (what the OS resolves is not what a lexical clean-up yields)
 	State           int // 0 absent, 1 present with old bytes, 2 parent directory missing, 3 path is a directory, 4 path below a regular file, 5 present and read-only file, 6 hard link to the setup file, 7 symbolic link to the setup file
 	FullOut         int // 1: stdout cannot be written (/dev/full), meaningful with -print
-	Via             int // 1: the input is named by $GOFILE only (as under go generate), no positional argument
+	Via             int // 1: the input is named by $GOFILE only (as under go generate), no positional argument; 2: the options are written AFTER the input file
 }
 
 func (c c15Case) id() string {
 	if c.Via == 1 {
 		return fmt.Sprintf("c15_%d_%d%d%d_%d_%d_%d_gofile", c.Input, c.Dry, c.Print, c.Log, c.Out, c.State, c.FullOut)
+	}
+	if c.Via == 2 {
+		return fmt.Sprintf("c15_%d_%d%d%d_%d_%d_%d_trailing", c.Input, c.Dry, c.Print, c.Log, c.Out, c.State, c.FullOut)
 	}
 	return fmt.Sprintf("c15_%d_%d%d%d_%d_%d_%d", c.Input, c.Dry, c.Print, c.Log, c.Out, c.State, c.FullOut)
 }
@@ -149,6 +152,11 @@ func c15Prepare(base string, c c15Case) (root, cwd string, args []string, outPat
 	}
 	if c.Via == 0 {
 		args = append(args, "setup.go")
+	}
+	if c.Via == 2 {
+		// `convergen setup.go -dry`: the flag package stops at the input file; whatever the tool makes of the rest,
+		// a command line that says -dry must not end with the output written (6df6aca: refused)
+		args = append([]string{"setup.go"}, args...)
 	}
 	return root, cwd, args, outPath, logPath, true
 }
@@ -283,6 +291,9 @@ func init() {
 								cases = append(cases, c15Case{in, dry, pr, lg, out, st, 0, 0})
 								if st <= 1 && out <= 1 && (th || in == 0 || in == 3) {
 									cases = append(cases, c15Case{in, dry, pr, lg, out, st, 0, 1})
+									if dry+pr+lg+out > 0 {
+										cases = append(cases, c15Case{in, dry, pr, lg, out, st, 0, 2})
+									}
 								}
 								if pr == 1 && st <= 1 && (th || in == 0 || in == 2) {
 									cases = append(cases, c15Case{in, dry, pr, lg, out, st, 1, 0})
@@ -303,7 +314,7 @@ func init() {
 			}
 		}
 		e.Rep.Set("strace_monitor", useStrace)
-		e.Rep.Rule("complete product input kind{accepted x2, rejected in parse / build / at the format stage, no interface, syntax error, a module of its own whose go.mod lacks / has the require for an imported replaced module} x -dry x -print x -log x {default path, -out other dir, -out through a symlinked directory and ..} x output-path state{absent, present with old bytes, parent directory missing, path is a directory, path below a regular file, read-only file, hard link to the setup file, symbolic link to the setup file} x (with -print) stdout {writable, /dev/full}; " +
+		e.Rep.Rule("complete product input kind{accepted x2, rejected in parse / build / at the format stage, no interface, syntax error, a module of its own whose go.mod lacks / has the require for an imported replaced module} x -dry x -print x -log x {default path, -out other dir, -out through a symlinked directory and ..} x output-path state{absent, present with old bytes, parent directory missing, path is a directory, path below a regular file, read-only file, hard link to the setup file, symbolic link to the setup file} x (with -print) stdout {writable, /dev/full}, and the input named by $GOFILE only / the options written after the input file; " +
 			"oracle O-frame: snapshot (content hash + mode of every path under the scratch root incl. HOME and TMPDIR, GOCACHE and the go telemetry dir excluded) before vs after: changed paths subset of {output iff exit 0 and not -dry} + {log iff -log}; " +
 			"with -dry or a failed run the output path keeps existence, bytes and mode; thorough adds an strace monitor of every write-class syscall issued by the convergen process itself; " +
 			"non-trivial = run that fails or carries -dry with a pre-existing output path")
@@ -335,6 +346,9 @@ func init() {
 				if c.Via == 1 {
 					env = append(env, "GOFILE=setup.go")
 					feat += "|via=GOFILE"
+				}
+				if c.Via == 2 {
+					feat += "|options-after-input"
 				}
 				exclude := func(rel string) bool {
 					// the `go` children of convergen write telemetry counters below $HOME/.config/go and
@@ -374,7 +388,7 @@ func init() {
 					add("crash", clip(res.Stderr, 300))
 					return fs, false
 				}
-				if c15Inputs[c.Input].accepted && c.State <= 1 && res.Exit != 0 && c.FullOut == 0 {
+				if c15Inputs[c.Input].accepted && c.State <= 1 && res.Exit != 0 && c.FullOut == 0 && c.Via != 2 {
 					add("accepted-input-failed", clip(res.Stderr, 300))
 				}
 				outRel, _ := filepath.Rel(root, outPath)
